@@ -412,3 +412,164 @@ func H12IQR() {
 	vndReach("h12:iqr")
 	vndAssert(iqr == s.Percentile(0.75)-s.Percentile(0.25), "iqr-is-the-difference-of-the-quartiles")
 }
+
+// ---------------------------------------------------------------- families of concrete inputs
+//
+// The remaining harnesses have no symbolic floats in the code under test: the solver only
+// chooses a member of a finite family (sizes, magnitudes, arrangements) and that member is
+// executed concretely by the engine; the reference is an independently arranged evaluation.
+// They are case splits, not proofs over a value range, and are listed as such in the bounds.
+
+// h12Uniform is the uniform distribution on [lo, hi] (a distribution without an InvCDF
+// method of its own, so that the generic inverse is used).
+type h12Uniform struct{ lo, hi float64 }
+
+func (u h12Uniform) CDF(x float64) float64 {
+	switch {
+	case x <= u.lo:
+		return 0
+	case x >= u.hi:
+		return 1
+	}
+	return (x - u.lo) / (u.hi - u.lo)
+}
+func (u h12Uniform) PDF(x float64) float64 {
+	if x < u.lo || x > u.hi {
+		return 0
+	}
+	return 1 / (u.hi - u.lo)
+}
+func (u h12Uniform) Bounds() (float64, float64) { return u.lo, u.hi }
+
+var h12Probs = []float64{0.5, 0.001, 0.025, 0.25, 0.375, 0.9, 0.975, 0.999999}
+
+// H12Inverse: the generic inverse distribution function inverts the distribution function,
+// is monotone, handles 0, 1 and arguments outside [0,1], and a closure gives the same
+// answers however often it was used before (1100 calls on one closure).
+func H12Inverse() {
+	which := vndParam("dist")
+	var d DistCommon
+	switch which {
+	case 0:
+		d = h12Uniform{-3, 5}
+	case 1:
+		d = h12Uniform{-4, 4} // CDF(0) is exactly 1/2
+	case 2:
+		d = TDist{1}
+	case 3:
+		d = TDist{2.5}
+	default:
+		d = TDist{30}
+	}
+	inv := InvCDF(d)
+	k := vndChoice("p", len(h12Probs))
+	y := h12Probs[k]
+	x := inv(y)
+	vndReach("h12:inverse")
+	vndAssert(x == x && !math.IsInf(x, 0), "inverse-is-finite-inside-the-unit-interval")
+	vndAssert(math.Abs(d.CDF(x)-y) <= 1e-9, "inverse-inverts-the-distribution-function")
+	if k+1 < len(h12Probs) && k > 0 {
+		// the list is ascending from index 1 on
+		vndAssert(x <= inv(h12Probs[k+1]), "inverse-is-monotone")
+	}
+	vndAssert(inv(-0.5) != inv(-0.5) && inv(1.5) != inv(1.5), "inverse-outside-the-unit-interval-is-nan")
+	lo, hi := inv(0), inv(1)
+	if which <= 1 {
+		l, h := d.Bounds()
+		vndAssert(lo == l && hi == h, "inverse-at-0-and-1-is-the-support")
+	} else {
+		vndAssert(math.IsInf(lo, -1) && math.IsInf(hi, 1), "inverse-at-0-and-1-is-infinite-for-unbounded-support")
+	}
+	if vndParam("history") == 1 {
+		// the same closure, used many times, against a fresh one
+		for n := 0; n < 1100; n++ {
+			inv(h12Probs[n%len(h12Probs)])
+		}
+		vndReach("h12:inverse-history")
+		vndAssert(inv(y) == x, "inverse-independent-of-earlier-calls")
+		vndAssert(InvCDF(d)(y) == x, "inverse-independent-of-earlier-calls")
+	}
+	vndObserveF64("x", x)
+}
+
+// h12Family builds a long sample: n values around magnitude mag in arrangement arr.
+func h12Family(n int, mag float64, arr int) []float64 {
+	xs := make([]float64, n)
+	for i := range xs {
+		f := 1 + float64(i%7)/8 // 1, 1.125, ... 1.75
+		switch arr {
+		case 0: // all near mag
+			xs[i] = mag * f
+		case 1: // alternating mag and 1/mag
+			if i%2 == 0 {
+				xs[i] = mag * f
+			} else {
+				xs[i] = f / mag
+			}
+		default: // first half large, second half small
+			if i < n/2 {
+				xs[i] = mag * f
+			} else {
+				xs[i] = f / mag
+			}
+		}
+	}
+	return xs
+}
+
+// H12Long: mean, variance, geometric mean and bounds of samples of up to 300 positive
+// values of widely varying magnitude against an independently arranged evaluation (scaled
+// two-pass sums; the geometric mean through binary exponents and mantissas).
+func H12Long() {
+	n := []int{1, 2, 3, 60, 200, 300}[vndChoice("n", 6)]
+	mag := []float64{3, 1e6, 1.0 / 2048, 1e150}[vndChoice("mag", 4)]
+	arr := vndChoice("arr", 3)
+	xs := h12Family(n, mag, arr)
+	vndReach("h12:long")
+	// reference mean: scaled sum
+	scale := 0.0
+	for _, x := range xs {
+		scale = math.Max(scale, math.Abs(x))
+	}
+	sum, comp := 0.0, 0.0
+	for _, x := range xs {
+		y := x/scale - comp
+		t := sum + y
+		comp = (t - sum) - y
+		sum = t
+	}
+	mean := sum / float64(n) * scale
+	vndAssert(math.Abs(Mean(xs)-mean) <= 1e-12*scale, "mean-agrees-with-the-definition")
+	lo, hi := Bounds(xs)
+	vndAssert(Mean(xs) >= lo && Mean(xs) <= hi, "mean-between-minimum-and-maximum")
+	// reference variance: two-pass on scaled values
+	if n > 1 {
+		ss := 0.0
+		for _, x := range xs {
+			d := x/scale - mean/scale
+			ss += d * d
+		}
+		v := ss / float64(n-1) * scale * scale
+		got := Variance(xs)
+		if !math.IsInf(v, 0) {
+			vndAssert(math.Abs(got-v) <= 1e-9*math.Max(v, 1e-300), "variance-agrees-with-the-definition")
+			vndAssert(got >= 0, "variance-not-negative")
+			vndAssert(math.Abs(StdDev(xs)-math.Sqrt(v)) <= 1e-9*math.Sqrt(v)+1e-300, "standard-deviation-is-the-root-of-the-variance")
+		}
+	} else {
+		vndAssert(Variance(xs) == 0, "variance-of-one-value-is-zero")
+	}
+	// reference geometric mean: exponents and mantissas separately
+	esum, lsum := 0, 0.0
+	for _, x := range xs {
+		m, e := math.Frexp(x)
+		esum += e
+		lsum += math.Log2(m)
+	}
+	g := math.Exp2((float64(esum) + lsum) / float64(n))
+	got := GeoMean(xs)
+	vndAssert(math.Abs(got-g) <= 1e-9*g, "geometric-mean-agrees-with-the-definition")
+	vndAssert(got >= lo*(1-1e-12) && got <= hi*(1+1e-12), "geometric-mean-between-minimum-and-maximum")
+	vndAssert(GeoMean(append([]float64{-1}, xs...)) != GeoMean(append([]float64{-1}, xs...)), "geometric-mean-of-a-non-positive-value-is-nan")
+	vndObserveF64("gm", got)
+}
